@@ -38,6 +38,17 @@ theorem signK_mul_self (a : K) : signK a * a = |a| := by
     simp [this]
 
 
+/-- The Huber function `f_γ` of `default_functionals.Huber` at one point (`γ > 0`). -/
+def huberFn (gam t : K) : K := if |t| ≤ gam then t ^ 2 / (2 * gam) else |t| - gam / 2
+
+theorem idxMap_length {K : Type} (x : List K) (f : Nat → K → K) :
+    (idxMap x f).length = x.length := by
+  simp [idxMap]
+
+theorem idxMap_getD {K : Type} (x : List K) (f : Nat → K → K) (i : Nat) (d : K)
+    (h : i < x.length) : (idxMap x f).getD i d = f i (x.getD i d) := by
+  simp [idxMap, List.getD_eq_getElem?_getD, h]
+
 /-! ## the abstract layer: functionals on a real inner product space -/
 section Abstract
 variable {E : Type} [NormedAddCommGroup E] [InnerProductSpace ℝ E]
